@@ -573,7 +573,13 @@ func replayWith(nb int, surveyed, standalone bool, mode string, licVer int, stor
 	defer func() { f.close() }()
 	b := f.bs["b1"]
 	w := &world{b: b, f: f, nb: nb, clients: map[string]*bk.Client{}, byID: map[string]string{}, names: []string{"c1", "c2", "c3"}}
-	if nb == 1 && len(label)%5 == 2 {
+	hasHostile := false
+	for _, raw := range walk {
+		if bytes.Contains(raw, []byte(`"n":"hostile"`)) {
+			hasHostile = true // (the hostile classes spell their channels out themselves)
+		}
+	}
+	if nb == 1 && len(label)%5 == 2 && !hasHostile {
 		// the same behaviour with channel levels that carry the names of the broker's own namespaces: a level is a
 		// level, whatever it is called
 		w.rename = map[string]string{"a": "presence", "b": "query", "x": "share", "y": "emitter"}
